@@ -15,12 +15,11 @@ CHECKFNS = [TD, TDX, ORD, ORDX, MMW]
 ASSUMPTIONS = [
     "treewidth = tw_perm (least elimination width over all vertex permutations, the definition in quickbb's docstring); proved equal to the least width of a valid tree decomposition (C10_tw_perm_is_treewidth); the check functions decide comparisons with tw_perm by a pruned search proved equivalent (C10_tw_oracle_spec)",
     "dict keys are canonicalised to naturals 0..n-1 in the order the harness inserts them; Python sets of ints < 8 iterate in ascending order (CPython), which the model uses wherever the code iterates a set; with other key types / >= 9 vertices only the verified oracles and the (valid?, width) observation decide",
-    "optimality of quickbb/acb (and validity of acb) is proved in the kernel only for all graphs on <= 5 vertices (_upto5); beyond that every implementation output is judged by td_ok and compared with the treewidth oracle (<= %d vertices) and with the model on every run" % 9,
+    "for acb it is proved for every graph that whatever it returns is a valid tree decomposition (C10_acb_valid); that it returns at all and that its width is the treewidth is proved in the kernel only for all graphs on <= 5 vertices (_upto5; quickbb and min_fill are proved for every graph); beyond that every implementation output is judged by td_ok and compared with the treewidth oracle (<= %d vertices) and with the model on every run" % 9,
     "benchmark graphs (12..25 vertices): the treewidths listed in /repo/test/test_factorize.py (freetdi/named-graphs) are trusted as external reference values",
 ]
 METHODS = ["min_fill", "quickbb", "acb"]
 TW_MAX = 9          # the treewidth oracle (pruned search tw_below, proved = tw_perm) is run up to this many vertices
-F8_KEY = "acb_isolated_vertex"
 
 # random cubic graphs (found once by search, kept as data) on which min_fill is NOT optimal in the
 # recorded dict insertion order, so that quickbb's branch and bound has to find a better order:
@@ -282,7 +281,7 @@ def _run_model(cf, values, seed, tag, tier):
     verdicts on the smallest graphs are re-evaluated inside the Coq kernel (vm_compute) and must
     agree.  (Own copy of core.run_model with tier-dependent caps: vm_compute is ~100x slower than
     the extracted code on 9-vertex graphs.)"""
-    n_sample, n_bad = (16, 12) if tier == "quick" else (60, 40)
+    n_sample, n_bad = (12, 10) if tier == "quick" else (60, 40)
     codes = run_ocaml(cf, values)
     rng = random.Random(seed * 7919 + 13)
     idx = list(range(len(values)))
@@ -311,24 +310,18 @@ def run(tier, seed):
     # --- tree_decomposition
     codes, k = _run_model(TD, [v for v, _, _ in out["td"]], seed, "c10td", tier); nk += k
     hist = {}
-    f8 = 0
     for (v, c, method), code in zip(out["td"], codes):
         hist[method] = hist.get(method, 0) + 1
         if code == 0: continue
-        key = None
-        if code == 1 and method == "acb" and has_isolated(c.g):
-            key = F8_KEY; f8 += 1
         msg = TD_MSG.get(code, "verdict code %d" % code)
-        if code == 10 and method == "acb" and has_isolated(c.g):
-            msg += (" -- the implementation's tree is valid and optimal here while the model still contains defect F8"
-                    " (acb's early return): if /repo was repaired, apply the one-line model patch of notes/C10.md to"
-                    " Model.TreeDec.acb_loop and mark the known finding fixed")
+        if code == 1 and method == "acb" and has_isolated(c.g):
+            msg += " -- regression of F8 (fixed in /repo 96ab4c3): acb drops vertices when a component is a single vertex"
         violations.append(Violation("%s: %s" % (method, msg),
                                     case=c.meta(method=method), observed=(v[4] if code != 5 else c.exc.get(method)),
                                     oracle="td_ok / tw_perm" if code < 10 else None,
                                     corr="C10_td_check_sound (C10_td_ok_sound_complete, C10_tw_oracle_spec) / corr:tree_decomposition (Model.TreeDec.td_check code %d)" % code,
                                     failing_input_found=(code < 10 and code != 2),
-                                    call="fggs.factorize.tree_decomposition(graph, method=%r)" % method, finding_key=key))
+                                    call="fggs.factorize.tree_decomposition(graph, method=%r)" % method))
     # --- min_fill / quickbb called directly
     ocodes, k = _run_model(ORD, [v for v, _, _ in out["ord"]], seed, "c10ord", tier); nk += k
     for (v, c, fname), code in zip(out["ord"], ocodes):
@@ -378,9 +371,7 @@ def run(tier, seed):
                kernel_reevaluated=nk, seconds=dict(implementation_calls=round(t_impl, 1), total_run=round(time.time() - t0, 1)),
                exact_agreement=dict(trees="%d/%d" % (x_ok, len(xcodes)), orders="%d/%d" % (y_ok, len(ycodes)),
                                     note="int keys, <= 8 vertices; measured only"),
-               f8_cases=f8,
-               open_items=["C10_quickbb_optimal / C10_acb_optimal for all graphs (only _upto5 proved; tier B: safety of the simplicial / almost-simplicial reductions, of the 'v not in sep' rule and of the ACP dynamic programme)",
-                           "acb is valid on every graph without isolated vertex: only _upto5"])
+               open_items=["acb total (no assertion fails) and optimal for all graphs: only _upto5 proved (completeness of the ACP dynamic programme); validity of whatever it returns is proved for every graph (C10_acb_valid)"])
     return cov, violations
 
 def replay(path):
@@ -407,7 +398,7 @@ def replay(path):
 
 MANIFEST = dict(
     level="proof",
-    text="Coq theorems about a Gallina model that follows fggs/factorize.py statement by statement. Unbounded (every simple undirected graph): for every permutation of the vertices tree_decomposition_from_order returns a valid tree decomposition (tree = connected + every edge a bridge, vertex and edge cover, running intersection) whose width is the elimination width; min_fill returns a permutation together with exactly that width, so method='min_fill' is valid; quickbb always returns (its assert cannot fail) a permutation with its elimination width, so method='quickbb' is valid; minor_min_width <= treewidth <= min_fill; tw_perm (least elimination width) is the least width of a valid tree decomposition; the executable checker td_ok is sound and complete. Bounded (all labelled graphs on <= 5 vertices, all dict insertion orders on <= 4): quickbb and acb return a decomposition of width exactly the treewidth; acb's defect on graphs with an isolated vertex (F8) is proved for the model (C10_acb_isolated_refuted, C10_acb_isolated_invalid_upto5). Every implementation output is judged by the extracted td_ok and treewidth oracle and compared with the model at the level (valid?, width).",
-    note="Trusted: Coq kernel + vm_compute, extraction (ExtrOcamlBasic) cross-checked against vm_compute, the Python harness that numbers dict keys and converts the tree dict to (bags, index pairs). Optimality of the exact methods (and validity of acb) beyond 5 vertices is tested against the verified oracles on every run, not proved.",
+    text="Coq theorems about a Gallina model that follows fggs/factorize.py statement by statement. Unbounded (every simple undirected graph): for every permutation of the vertices tree_decomposition_from_order returns a valid tree decomposition (tree = connected + every edge a bridge, vertex and edge cover, running intersection) whose width is the elimination width; min_fill returns a permutation together with exactly that width, so method='min_fill' is valid; quickbb always returns (its assert cannot fail) a permutation whose elimination width it reports and that width IS the treewidth (safety of the simplicial/almost-simplicial reductions, of the separator rule and of the pruning), so method='quickbb' is valid and optimal for every graph; whatever method='acb' returns is a valid tree decomposition (certificates of the ACP chart are rooted decompositions with pairwise different bags, un-rooting is faithful); minor_min_width <= treewidth <= min_fill; tw_perm (least elimination width) is the least width of a valid tree decomposition; the executable checker td_ok is sound and complete. Bounded (all labelled graphs on <= 5 vertices, all dict insertion orders on <= 4): acb returns (no assertion fails) a valid decomposition of width exactly the treewidth, graphs with isolated vertices included (defect F8 of acb was repaired in /repo 96ab4c3 and in the model; a regression is reported as a VIOLATION). Every implementation output is judged by the extracted td_ok and treewidth oracle and compared with the model at the level (valid?, width).",
+    note="Trusted: Coq kernel + vm_compute, extraction (ExtrOcamlBasic) cross-checked against vm_compute, the Python harness that numbers dict keys and converts the tree dict to (bags, index pairs). That acb returns at all and that its width is the treewidth are, beyond 5 vertices, tested against the verified oracles on every run, not proved.",
     technique="Coq proof (model + theorems) + model/implementation correspondence with verified-spec oracle",
     design_ref="DESIGN.md section 6, C10; Appendix A.9; Appendix C (C10)")
